@@ -268,7 +268,43 @@ func genC15(t *rapid.T) C15Case {
 		c.Origin = "random"
 		return c
 	}
-	c.Data, c.Origin = mutateBytes(t, genValidBytes(t, c.Target))
+	valid := genValidBytes(t, c.Target)
+	if c.Target == "file" && rapid.IntRange(0, 2).Draw(t, "damageSlots") == 0 {
+		// damage stored slot intervals (not the header): unaligned / shifted / extreme base intervals
+		if h, err := ParseWspHeader(valid); err == nil && len(h.Archives) > 0 {
+			b := append([]byte(nil), valid...)
+			n := rapid.IntRange(1, 3).Draw(t, "damaged")
+			for i := 0; i < n; i++ {
+				ar := h.Archives[rapid.IntRange(0, len(h.Archives)-1).Draw(t, "damArch")]
+				slot := uint32(0)
+				if rapid.IntRange(0, 3).Draw(t, "otherSlot") == 0 {
+					slot = uint32(rapid.IntRange(0, int(ar.Points)-1).Draw(t, "damSlot"))
+				}
+				off := ar.Offset + 12*slot
+				if int(off)+4 > len(b) {
+					continue
+				}
+				base := int64(alignDown(c.Now, int64(ar.Step)))
+				var v int64
+				switch rapid.IntRange(0, 4).Draw(t, "damKind") {
+				case 0:
+					v = base + rapid.Int64Range(1, int64(ar.Step)).Draw(t, "unaligned") // unaligned when step > 1
+				case 1:
+					v = base - rapid.Int64Range(1, 3*int64(ar.Step)).Draw(t, "before")
+				case 2:
+					v = int64(rapid.SampledFrom(extreme32).Draw(t, "extremeBase"))
+				case 3:
+					v = c.Now + rapid.Int64Range(-5, 5).Draw(t, "nearNow")
+				default:
+					v = int64(binary.BigEndian.Uint32(b[off:])) + rapid.Int64Range(-3, 3).Draw(t, "nudge")
+				}
+				binary.BigEndian.PutUint32(b[off:], uint32(v))
+			}
+			c.Data, c.Origin = b, "slot-interval-damaged"
+			return c
+		}
+	}
+	c.Data, c.Origin = mutateBytes(t, valid)
 	return c
 }
 
